@@ -357,7 +357,8 @@ def _state(m, s, seed):
             elif s == "cfg_only":
                 P = axis_angle_quat(generic_unit(seed, 86 + k), -1.2)
                 xyz = 0.4 * generic_vec(seed, 71 + k)
-                cfg[name] = np.concatenate([xyz, P])
+                # non-unit quaternion (the importer normalises it; seeded C28-f)
+                cfg[name] = np.concatenate([xyz, (2.0 if k % 2 == 0 else 0.5) * P])
                 r, A = xyz, quat_to_A(P)
                 kinds[name] = "quat7"
             elif s == "vel_only":
